@@ -100,7 +100,7 @@ Definition single_record (op : rop) (before : opobs) : option (Z * Z) :=
   | _ => None
   end.
 Definition rec_partition (op : rop) : option Z :=
-  match op with Pump p _ | Stale p _ | RawRec p _ | Ahead p _ => Some p | _ => None end.
+  match op with Pump p _ | Stale p _ | RawRec p _ | Ahead p _ | Wild p _ => Some p | _ => None end.
 
 (* fold over ops with the observation before and after each *)
 Fixpoint scan {R} (f : rop -> opobs -> opobs -> list R) (ops : list rop) (before : opobs) (l : list opobs) : list R :=
@@ -119,7 +119,7 @@ Definition fail := (Z * list Z)%type.
 Definition c07_flags (op : rop) (b a : opobs) : list fail :=
   match op with
   | MainRec p o => if list_eqb emit_eqb (b_emits a) [(p, o, false)] then [] else [(2, [1])]
-  | Pump p _ | Stale p _ | RawRec p _ | Ahead p _ =>
+  | Pump p _ | Stale p _ | RawRec p _ | Ahead p _ | Wild p _ =>
       if forallb (fun e => snd e && (fst (fst e) =? p)
                            && (in_win (pget p (b_active b)) (snd (fst e)) || in_win (pget p (b_active a)) (snd (fst e))
                                || existsb (fun r => in_win (Some r) (snd (fst e))) (reqs_of (b_trk b) p)))
@@ -242,16 +242,41 @@ Definition cover_of (cfg : rcfg) (ops : list rop) (l : list opobs) (p : Z) : opt
 
 Definition partitions : list Z := zrange 0 16.
 
+(* offsets put at risk by unrestricted stragglers (known finding F11): a Wild record of p at offset o, delivered when the
+   client's position was n and the window (f, t], that was a progress point (multiple of updateRequestEvery, o < t) or
+   beyond t: the records n .. min(o-1, t) may never be emitted if a re-assignment / completion follows *)
+Definition wild_risk (cfg : rcfg) (p : Z) (op : rop) (b a : opobs) : list Z :=
+  match op with
+  | Wild q d =>
+      if q =? p then
+        match pget p (b_cli b), pget p (b_active b) with
+        | Some n, Some (f, t) =>
+            let o := n + 1 + Z.abs d in
+            if (f <=? o) && (((o mod c_every cfg =? 0) && (o <? t)) || (t <? o))
+            then zrange n (Z.to_nat (Z.min o (t + 1) - n)) else []
+        | _, _ => []
+        end
+      else []
+  | _ => []
+  end.
+
 (* detail [1]: the only missing offsets are window starts (the request's from, or the low watermark a truncation
-   restarted from) — the known defect F6; detail [2; p; o]: some other offset o is missing *)
+   restarted from) - the known defect F6; detail [4; p; o]: besides those only offsets put at risk by an unrestricted
+   straggler are missing - known finding F11; detail [2; p; o]: some other offset o is missing *)
 Definition cover_fails (cl : Z) (want_done : bool) (cfg : rcfg) (ops : list rop) (l : list opobs) : list fail :=
   flat_map (fun p =>
     match cover_of cfg ops l p with
     | Some (cv, (f0, t, lows)) =>
         if Bool.eqb (cv_done cv) want_done then
-          match filter (fun o => negb (memZ o (f0 :: lows))) (cv_missing cv) with
+          let nonstart := filter (fun o => negb (memZ o (f0 :: lows))) (cv_missing cv) in
+          let risk := scan (wild_risk cfg p) ops obs0 l in
+          match filter (fun o => negb (memZ o risk)) nonstart with
           | o :: _ => [(cl, [2; p; o])]
-          | [] => match cv_missing cv with [] => [] | _ => [(cl, [1])] end
+          | [] =>
+              match nonstart with
+              | o :: _ => [(cl, [4; p; o])]
+              | [] => match cv_missing cv with [] => [] | _ => [(cl, [1])] end
+              end
           end
         else []
     | None => []
@@ -317,7 +342,7 @@ Fixpoint c09_revoked (ops : list rop) (l : list opobs) (revoked : bool) : list f
   match ops, l with
   | op :: ops', a :: l' =>
       let r := match op with
-               | Revoke | Crash => true
+               | Revoke | Crash | RecCrash _ => true
                | SetOwned _ | MAssign _ _ => false
                | _ => revoked
                end in
@@ -334,12 +359,12 @@ Definition c09_owned (op : rop) (b a : opobs) : list fail :=
   | MAssign cerr pcs =>
       if b_err a then (if same then [] else [(5, [2])])
       else if list_eqb Z.eqb (b_owned a) (map fst pcs) then [] else [(5, [3])]
-  | Revoke | Crash => match b_owned a with [] => [] | _ => [(5, [4])] end
+  | Revoke | Crash | RecCrash _ => match b_owned a with [] => [] | _ => [(5, [4])] end
   | _ => if same then [] else [(5, [5])]
   end.
 
 Definition has_handoff (ops : list rop) : bool :=
-  existsb (fun op => match op with Crash | Revoke => true | _ => false end) ops.
+  existsb (fun op => match op with Crash | Revoke | RecCrash _ => true | _ => false end) ops.
 
 Definition spec_c09 (cfg : rcfg) (ops : list rop) (l : list opobs) : list fail :=
   if (length l =? length ops)%nat then
@@ -353,10 +378,20 @@ Definition spec_c09 (cfg : rcfg) (ops : list rop) (l : list opobs) : list fail :
 (* clause 1: exactly one limiter wait per emitted recovery event, taken BEFORE the event is emitted (the k-th wait of
    an op sees k-1 emitted events); no wait for anything else, in particular none for main-consumer records *)
 Definition c19_waits (op : rop) (b a : opobs) : list fail :=
-  let n := length (rec_emits (b_emits a)) in
-  if list_eqb Z.eqb (b_waits a) (zrange 0 n)
-     && (length (b_emits a) =? match op with MainRec _ _ => 1 | _ => n end)%nat
-  then [] else [(1, [match op with MainRec _ _ => 2 | _ => 1 end])].
+  match op with
+  | RecCrash _ =>
+      (* the owner died while handling a record: nothing was emitted; at most the one wait of the record it was
+         about to emit had been taken *)
+      match b_emits a with
+      | [] => if list_eqb Z.eqb (b_waits a) [] || list_eqb Z.eqb (b_waits a) [0] then [] else [(1, [3])]
+      | _ => [(1, [3])]
+      end
+  | _ =>
+      let n := length (rec_emits (b_emits a)) in
+      if list_eqb Z.eqb (b_waits a) (zrange 0 n)
+         && (length (b_emits a) =? match op with MainRec _ _ => 1 | _ => n end)%nat
+      then [] else [(1, [match op with MainRec _ _ => 2 | _ => 1 end])]
+  end.
 
 Definition spec_c19_logic (ops : list rop) (l : list opobs) : list fail :=
   if (length l =? length ops)%nat then dedup_fail (scan c19_waits ops obs0 l) else [(0, [])].
@@ -404,6 +439,8 @@ Definition dec_op (t : tree) : option rop :=
   | T [L 11; m] => m <- dec_msg m ;; Some (Deliver m)
   | T [L 12] => Some Crash
   | T [L 13; L p; L d] => if okp p then Some (Ahead p d) else None
+  | T [L 14; L p] => if okp p then Some (RecCrash p) else None
+  | T [L 15; L p; L d] => if okp p then Some (Wild p d) else None
   | _ => None
   end.
 Definition dec_input (t : tree) : option input :=
@@ -490,7 +527,8 @@ Definition obs_diffs (m o : obs) : list Z :=
    14 crash while a request is outstanding, 15 coverage judged on a completed request, 16 coverage judged on an
    outstanding request that has progressed, 17 a refresh re-assigned the client, 18 a record was emitted twice,
    19 timing case with n > 100, 20 several partitions active at once, 21 main and recovery events in one case,
-   22 a straggler ahead of the client's position was emitted *)
+   22 a straggler ahead of the client's position was emitted, 23 the owner died blocked on the emission of a record,
+   24 an unrestricted straggler on the progress grid / beyond to was delivered (F11 exposure) *)
 Definition tag_if (b : bool) (t : Z) : list Z := if b then [t] else [].
 Fixpoint has_dup (l : list (Z * Z)) : bool :=
   match l with [] => false | x :: r => existsb (zz_eqb x) r || has_dup r end.
@@ -519,7 +557,7 @@ Definition tags (i : input) : list Z :=
                     match op with KErr _ _ _ => (length (flat_map snd (b_trk a)) <? length (flat_map snd (b_trk b)))%nat
                     | _ => false end end) (combine (combine ops (obs0 :: l)) l)) 13
       ++ tag_if (existsb (fun x => match x with (op, b) =>
-                    match op with Crash => negb (match flat_map snd (b_trk b) with [] => true | _ => false end) | _ => false end end)
+                    match op with Crash | RecCrash _ => negb (match flat_map snd (b_trk b) with [] => true | _ => false end) | _ => false end end)
                   (combine ops (obs0 :: l))) 14
       ++ tag_if (existsb (fun cv => cv_done cv) covs) 15
       ++ tag_if (existsb (fun cv => negb (cv_done cv) && negb (match cv_missing cv with [] => true | _ => false end)) covs
@@ -532,6 +570,10 @@ Definition tags (i : input) : list Z :=
       ++ tag_if (existsb (fun x => match x with (op, a) =>
                     match op with Ahead _ _ => negb (match b_emits a with [] => true | _ => false end) | _ => false end end)
                   (combine ops l)) 22
+      ++ tag_if (existsb (fun x => match x with (op, a) =>
+                    match op with RecCrash _ => negb (match b_waits a with [] => true | _ => false end) | _ => false end end)
+                  (combine ops l)) 23
+      ++ tag_if (existsb (fun p => negb (match scan (wild_risk cfg p) ops obs0 l with [] => true | _ => false end)) partitions) 24
   end.
 
 Definition enc_fail (prop : Z) (f : fail) : tree := clause prop (fst f) (map L (snd f)).
